@@ -2,6 +2,7 @@ import Driver.OpsRead
 import TT.RunAnalysis
 import TT.Run
 import TT.RunSrc
+import TT.RunCmd
 namespace Driver
 open TT TT.Tree TT.Spec
 
@@ -64,6 +65,16 @@ def runOpConvert (op : String) (args : List String) : String :=
       | some r => encReport r
       | none => "OUTSIDE"
     | _, _, _ => bad
+  | "convert_cmd", [srcfmt, words, destfmt, dwords, enc, names, pwords, src] =>
+    -- the whole `transform` command from the words of its command line: `--trans names --params pwords` (TT.runCmd:
+    -- stepOf under ONE dict for all names), `--src-opts`, `--dest-opts`
+    match decSource srcfmt src, destFmt? destfmt, decWords words, decWords dwords, decWords names, decWords pwords with
+    | some s, some f, some ws, some dws, some ns, some pws =>
+      match TT.runCmd ns pws f dws (if enc == "n" then none else decS enc) ws s with
+      | some (.ok t) => encS t
+      | some (.error e) => encErr e
+      | none => "OUTSIDE"
+    | _, _, _, _, _, _ => bad
   | "convert_words2", [srcfmt, words, destfmt, dwords, enc, calls, src] =>
     -- both option lists as words (TT.runWords2: outOptsOf for `--dest-opts`)
     match decSource srcfmt src, destFmt? destfmt, decWords words, decWords dwords with
